@@ -73,6 +73,7 @@ def parseDefs (s : String) : Option (List (List Int × List Int)) :=
 def parsePct (s : String) : Option Pct :=
   let (neg, body) := if s.startsWith "-" then (true, (s.drop 1).toString) else (false, s)
   match body.splitOn "/" with
+  | ["huge"] => some ⟨neg, 2 ^ 1023, 0⟩   -- math.MaxFloat64 (anything above 1 is the same percentage)
   | [a, b] => do pure ⟨neg, ← a.toNat?, ← b.toNat?⟩
   | _ => none
 
